@@ -149,6 +149,25 @@ def mutation_corpus(lang, tier):
                     texts.append({"text": s[:i] + c + s[i:]})
         for p in PARAMS:
             texts.append({"text": s, "params": p})
+    # function calls with arguments at and beyond the edges of their domains (fractions above 1, negative counts and
+    # indexes, extreme integers, wrong types), over literals and over the properties of the stored nodes
+    if lang in ("gql", "cypher"):
+        fns1 = ["abs", "toInteger", "toFloat", "toString", "size", "sqrt", "sign", "ceil", "floor", "round", "head", "last", "reverse", "keys", "length", "exp", "log"]
+        fns2 = ["percentile_disc", "percentile_cont", "percentileDisc", "percentileCont", "substring", "left", "right", "range", "split", "round", "coalesce"]
+        args = ["-1", "0", "1", "2", "1.5", "40", "0.5", "9223372036854775807", "-9223372036854775808", "null", "'a'", "''", "1e308", "[1, 2]", "[]", "n.k"]
+        for f in fns1:
+            for a in args:
+                texts.append({"text": f"MATCH (n:P) RETURN {f}({a})"})
+        for f in fns2:
+            for a in args:
+                for b in (args if tier != "quick" else ["-1", "1.5", "2", "40", "9223372036854775807", "null", "'a'"]):
+                    texts.append({"text": f"MATCH (n:P) RETURN {f}({a}, {b})"})
+                    if a != "n.k":
+                        texts.append({"text": f"MATCH (n:P) RETURN {f}(n.k, {b})"})
+        for a in args:
+            for b in ["-1", "0", "2", "9223372036854775807", "null"]:
+                texts.append({"text": f"MATCH (n:P) RETURN substring('abc', {a}, {b}), [1, 2, 3][{a}], [1, 2, 3][{a}..{b}]"})
+                texts.append({"text": f"MATCH (n:P) RETURN n.k ORDER BY n.k SKIP {a} LIMIT {b}"})
     nests = [10, 100, 1000, 3000, 10000] + ([100000] if tier != "quick" else [])
     # (prefix, repeated unit, innermost text, repeated closer, suffix)
     forms = {"gql": [("RETURN ", "(", "1", ")", ""), ("RETURN ", "[", "1", "]", ""), ("RETURN ", "NOT ", "true", "", ""), ("RETURN ", "-", "1", "", ""), ("MATCH (n) WHERE ", "(", "true", ")", " RETURN n"),
